@@ -260,6 +260,7 @@ SPECS = {
             'name': 'storage',
             'module': 'scenarios.c16_public',
             'config_common': {'database_encryption_enabled': 'True'},
+            'library_logging': True,
             'env': {'DB_FIELD_ENCRYPTION_KEY': '11aa22bb33cc44dd55ee66ff77008899aabbccddeeff00112233445566778899'},
             'fault_kinds': ['crash'],
             'tiers': {
@@ -270,6 +271,7 @@ SPECS = {
             'name': 'storage_pw',
             'module': 'scenarios.c16_public',
             'config_common': {'database_encryption_enabled': 'True'},
+            'library_logging': True,
             'env': {'DB_FIELD_ENCRYPTION_PASSWORD': 'correct horse battery staple (verif)'},
             'fault_kinds': ['crash'],
             'tiers': {
